@@ -565,11 +565,145 @@ func TestC06(t *testing.T) {
 			run.Sample(sc)
 		}
 	}
+	for i := 0; i < run.Pick(12, 1200); i++ {
+		id := fmt.Sprintf("return/%d", i)
+		if !run.Mine(i) || !run.Want(id) {
+			continue
+		}
+		rng := run.RNG(id)
+		peersN := []int{1, 3, 4}[i%3]
+		at := time.Duration(300+rng.Intn(2500))*time.Millisecond + 73*time.Microsecond
+		run.Journal(id, fmt.Sprintf("peers=%d at=%v", peersN, at))
+		var res []*c01Result
+		err := Bubble(t, func() { res = runC06Return(run, run.Seed()*59+int64(i), peersN, at) })
+		if err != nil {
+			res = append(res, &c01Result{"C06/bubble", err.Error()})
+		}
+		for _, r := range res {
+			run.Violation(id, r.Key, r.What, map[string]any{"peers": peersN, "return_at_ns": at})
+		}
+	}
 	if !run.Replaying() {
+		run.Require("e2e-end|left-and-returned-then-timer|peers=1", "e2e-end|left-and-returned-then-timer|peers=3")
 		run.Require("e2e-end|refuted", "e2e-end|resuspected-then-timer", "e2e-end|foreign-dead", "e2e-prehistory|rejoin-newaddr", "e2e-prehistory|come-and-go", "e2e-prehistory|meta-update", "e2e-prehistory|addr-conflict")
 	}
 	run.Complete()
 	if run.Violations() > 0 {
 		t.Errorf("%d violation(s)", run.Violations())
 	}
+}
+
+// runC06Return: the suspected peer announces its own departure during the suspicion and its name comes
+// straight back from another address at the SAME incarnation (a departed name may do that); it is
+// silent there too, so the node suspects it again on its own evidence. The second suspicion must run
+// its own full course: the first suspicion's timer, still ticking, must not end it early.
+func runC06Return(run *Run, seed int64, peersN int, returnAt time.Duration) (out []*c01Result) {
+	fail := func(key, f string, a ...any) {
+		out = append(out, &c01Result{"C06/e2e/" + key, fmt.Sprintf(f, a...)})
+	}
+	rig, err := NewRig(RigOpts{Seed: seed, Spec: NodeSpec{Name: "V", IP: "10.9.9.9", Mutate: func(cf *memberlist.Config) {
+		cf.ProbeInterval = time.Second
+		cf.ProbeTimeout = 500 * time.Millisecond
+		cf.PushPullInterval = 0
+		cf.GossipInterval = 200 * time.Millisecond
+		cf.IndirectChecks = 1
+		cf.DisableTcpPings = true
+	}}})
+	if err != nil {
+		fail("harness/create", "%v", err)
+		return
+	}
+	defer rig.Close()
+	var peers []*FakePeer
+	for i := 0; i < peersN; i++ {
+		p := rig.AddPeer(fmt.Sprintf("p%d", i), fmt.Sprintf("10.9.1.%d", i+1), 7946)
+		p.AutoAck = true
+		peers = append(peers, p)
+		rig.Introduce(p, 1)
+	}
+	tgt := rig.AddPeer("T", "10.9.2.1", 7946) // never answers
+	rig.Introduce(tgt, c06TInc)
+	Settle(time.Millisecond)
+	m := rig.V.ML()
+	cf := rig.V.Conf
+	var leaves []time.Time
+	rig.V.Ev.mu.Lock()
+	rig.V.Ev.OnEvent = func(ev EvRec) {
+		if ev.Kind == "leave" && ev.Name == "T" {
+			leaves = append(leaves, ev.At)
+		}
+	}
+	rig.V.Ev.mu.Unlock()
+	var first memberlist.VerifSuspicionInfo
+	found := false
+	for i := 0; i < 3000 && !found; i++ {
+		Settle(5 * time.Millisecond)
+		first, found = m.VerifSuspicionOf("T")
+	}
+	if !found {
+		fail("harness/no-suspicion", "target was never suspected")
+		return
+	}
+	time.Sleep(time.Until(first.Start.Add(returnAt)))
+	Settle(0)
+	if len(leaves) > 0 {
+		return // already dead: nothing to return from
+	}
+	peers[0].Send(Enc(TDead, &WDead{Incarnation: c06TInc, Node: "T", From: "T"}))
+	Settle(time.Millisecond)
+	t2 := rig.AddPeer("T@new", "10.9.2.2", 7946) // silent as well
+	t2.Name = "T"
+	rig.Introduce(t2, c06TInc)
+	Settle(time.Millisecond)
+	rec := rig.V.Record("T")
+	if rec == nil || rec.State != memberlist.StateAlive || rec.Incarnation != c06TInc || net.IP(rec.Addr).String() != "10.9.2.2" {
+		fail("harness/return", "the departed name coming back from a new address at the same incarnation was not accepted: %s", recString(rec))
+		return
+	}
+	nLeaves := len(leaves)
+	var second memberlist.VerifSuspicionInfo
+	got := false
+	var nBefore, nAt int
+	prevN := len(m.VerifDump().Records)
+	for i := 0; i < 16000 && len(leaves) == nLeaves; i++ {
+		Settle(5 * time.Millisecond)
+		curN := len(m.VerifDump().Records)
+		if si, ok := m.VerifSuspicionOf("T"); ok && !si.Start.Equal(first.Start) && !got {
+			second, got, nBefore, nAt = si, true, prevN, curN
+		}
+		prevN = curN
+	}
+	run.Eval(1)
+	run.Cell("e2e-end", "left-and-returned-then-timer", fmt.Sprintf("peers=%d", peersN))
+	if len(leaves) == nLeaves {
+		fail("never-declared-dead", "the returned target was still listed %v after it came back", time.Since(first.Start))
+		return
+	}
+	died := leaves[len(leaves)-1]
+	if !got {
+		fail("died-without-suspicion", "the returned target was declared dead at +%v without a new suspicion of its own (the first suspicion began at +0, the departure came at +%v)", died.Sub(first.Start), returnAt)
+		return
+	}
+	var want time.Duration
+	ok := false
+	for _, n := range []int{nAt, nBefore} {
+		k := cf.SuspicionMult - 2
+		if n-2 < k {
+			k = 0
+		}
+		scale := math.Max(1.0, math.Log10(math.Max(1.0, float64(n))))
+		min := time.Duration(cf.SuspicionMult) * time.Duration(scale*1000) * cf.ProbeInterval / 1000
+		max := time.Duration(cf.SuspicionMaxTimeoutMult) * min
+		if second.K == k && second.Min == min && second.Max == max {
+			want, ok = suspicionT(0, k, min, max), true
+		}
+	}
+	if !ok {
+		fail("parameters", "second suspicion started with k=%d min=%v max=%v, not derived from the table size (%d or %d)", second.K, second.Min, second.Max, nBefore, nAt)
+		return
+	}
+	if d := died.Sub(second.Start); d < want-2*time.Millisecond || d > want+2*time.Millisecond {
+		fail("resuspicion/off-schedule", "the target left at +%v and came back from another address at the same incarnation; re-suspected at +%v with no confirmations, it was declared dead %v later, the schedule says %v (k=%d min=%v max=%v): the first suspicion's timer was still in effect", returnAt, second.Start.Sub(first.Start), d, want, second.K, second.Min, second.Max)
+	}
+	return
 }
